@@ -157,15 +157,29 @@ def run_driver(exe, args, timeout=3600, env=None, ok_codes=(0,)):
 
 # ----------------------------------------------------------------------------- trace validation
 
-def validate_trace(workdir, module, trace_file, timeout=3600, extra_cfg="", java_opts=JAVA_OPTS):
-    """Validate one ndjson trace with Trace_<module>; returns (stats, bad, lines)."""
+def validate_trace(workdir, module, trace_file, timeout=3600, extra_cfg="", java_opts=JAVA_OPTS, inv_labels=None):
+    """Validate one ndjson trace with Trace_<module>; returns (stats, bad, lines).
+    A violated INVARIANT of the trace configuration is reported as a rejection of the run it occurred in
+    (label inv_labels[name]); the rest of that file is then not examined."""
     tmpl = open(os.path.join(TLA, "Trace_%s.cfg.tmpl" % module)).read()
     cfg = tmpl.replace("@TRACE@", trace_file) + extra_cfg
     rc, out = run_tlc(workdir, "Trace_" + module, cfg, workers=1, timeout=timeout, java_opts=java_opts)
+    nlines = sum(1 for _ in open(trace_file))
+    m = re.search(r"Invariant (\w+) is violated", out)
+    if m and inv_labels and m.group(1) in inv_labels:
+        ls = [int(x) for x in re.findall(r"^/\\ l = (\d+)", out, re.M)]
+        line = max(ls) if ls else 1
+        lines = open(trace_file).read().splitlines()
+        scn = json.loads(lines[min(line, len(lines)) - 1]).get("scn", 0)
+        bad = [{"scn": scn, "line": line, "labels": [inv_labels[m.group(1)]], "detail": ["invariant " + m.group(1)]}]
+        return {"scenarios": 0, "rejected": 1}, bad, nlines
+    if m and m.group(1) == "NotStuck":
+        ls = [int(x) for x in re.findall(r"^/\\ l = (\d+)", out, re.M)]
+        raise ToolFailure("the trace specification Trace_%s cannot consume line %s of %s (specification bug, not a violation)"
+                          % (module, max(ls) if ls else "?", trace_file))
     consumed = tlc_tagged(out, "CONSUMED")
     if not consumed or "No error has been found" not in out:
         raise ToolFailure("trace validation of %s did not complete:\n%s" % (trace_file, tlc_error_excerpt(out)))
-    nlines = sum(1 for _ in open(trace_file))
     if int(consumed[-1]) != nlines:
         raise ToolFailure("trace validation consumed %s of %d lines" % (consumed[-1], nlines))
     stats = {}
